@@ -171,25 +171,28 @@ func (r Wrapper) validateS2SPresentationNonce(presentation vc.VerifiablePresenta
 			Description:   "presentation has invalid/missing nonce",
 		}
 	}
-	nonceError := r.s2sNonceStore().Get(nonce, new(bool))
-	if nonceError != nil && errors.Is(nonceError, storage.ErrNotFound) {
-		// this is OK, nonce has not been used before
-		nonceError = nil
-	} else if nonceError == nil {
-		// no store error: value was retrieved from store, meaning the nonce has been used before
-		nonceError = oauth.OAuth2Error{
-			Code:        oauth.InvalidRequest,
-			Description: "presentation nonce has already been used",
+	// check and store in one step: of two concurrent requests presenting the same nonce only one may find it unused
+	return storage.Atomically(func() error {
+		nonceError := r.s2sNonceStore().Get(nonce, new(bool))
+		if nonceError != nil && errors.Is(nonceError, storage.ErrNotFound) {
+			// this is OK, nonce has not been used before
+			nonceError = nil
+		} else if nonceError == nil {
+			// no store error: value was retrieved from store, meaning the nonce has been used before
+			nonceError = oauth.OAuth2Error{
+				Code:        oauth.InvalidRequest,
+				Description: "presentation nonce has already been used",
+			}
 		}
-	}
-	// Other error occurred. Keep error to report after storing nonce.
+		// Other error occurred. Keep error to report after storing nonce.
 
-	// Regardless the result of the nonce checking, the nonce of the VP must not be used again.
-	// So always store the nonce.
-	if err := r.s2sNonceStore().Put(nonce, true); err != nil {
-		nonceError = errors.Join(fmt.Errorf("unable to store nonce: %w", err), nonceError)
-	}
-	return nonceError
+		// Regardless the result of the nonce checking, the nonce of the VP must not be used again.
+		// So always store the nonce.
+		if err := r.s2sNonceStore().Put(nonce, true); err != nil {
+			nonceError = errors.Join(fmt.Errorf("unable to store nonce: %w", err), nonceError)
+		}
+		return nonceError
+	})
 }
 
 // extractNonce extracts the nonce from the presentation.
